@@ -71,7 +71,7 @@ ASSUMPTIONS = [
 REQUIRED = ['indiv', 'hier', 'filter', 'kind:gauss', 'kind:lognorm', 'kind:trunc', 'kind:pooled', 'kind:hetero',
             'noncentered', 'cov', 'cov_pooled', 'red', 'comp', 'bare', 'ids:unsorted', 'ids:default', 'stat',
             'tight', 'wide', 'chains=1', 'draws=1', 'n_ids=1', 'param_map_swap', 'second_individual',
-            'e2e:optimisation:broken_run']
+            'e2e:optimisation:broken_run', 'n_runs>default:two_steps']
 
 UNSORTED_IDS = ['id-e', 'id-b', 'id-d', 'id-a', 'id-c']
 SAMPLERS = {'haario': 'HaarioBardenetACMC', 'metropolis': 'MetropolisRandomWalkMCMC'}
@@ -194,7 +194,9 @@ def _draw_common(draw, spec):
     spec['stat'] = gen.chance(draw, 0.25)
     spec['n_chains'] = draw(st.integers(1, 4))
     spec['n_draws'] = draw(st.integers(1, 6))
-    spec['n_runs'] = draw(st.integers(1, 3))
+    # (controllers start with 5 runs: numbers below and above that default, also reached in two set_n_runs steps)
+    spec['n_runs'] = draw(st.integers(6, 8)) if gen.chance(draw, 0.2) else draw(st.integers(1, 3))
+    spec['n_runs_first'] = draw(st.sampled_from([None, None, 2, 6, 7]))
     spec['n_iter'] = draw(st.integers(3, 5))
     spec['sampler'] = draw(st.sampled_from(['haario', 'haario', 'metropolis']))
     spec['optimiser'] = draw(st.sampled_from(['cmaes', 'cmaes', 'neldermead', 'xnes']))
@@ -294,6 +296,10 @@ def classify(spec):
     labs.add('chains=%d' % spec['n_chains'] if spec['n_chains'] == 1 else 'chains>1')
     labs.add('draws=%d' % spec['n_draws'] if spec['n_draws'] == 1 else 'draws>1')
     labs.add('sampler:' + spec['sampler'])
+    if spec.get('n_runs', 1) > 5:
+        labs.add('n_runs>default')
+        if spec.get('n_runs_first'):
+            labs.add('n_runs>default:two_steps')
     labs.add('optimiser:' + spec['optimiser'])
     if spec['kind'] == 'indiv':
         labs.add('ident' if spec['ident'] is not None else 'no_ident')
@@ -787,6 +793,8 @@ def _check_inference(case, s, P, L):
     ctrl = None
     with case.clause('controller'):
         ctrl = chi.SamplingController(P, seed=s['cseed'])
+        if s.get('n_runs_first'):
+            ctrl.set_n_runs(s['n_runs_first'])
         ctrl.set_n_runs(s['n_runs'])
         ctrl.set_parallel_evaluation(False)
         ctrl.set_sampler(getattr(pints, SAMPLERS[s['sampler']]))
@@ -866,6 +874,8 @@ def _run_optimisation(case, s, P, L):
     try:
         with case.clause('run_optimisation'):
             oc = chi.OptimisationController(P, seed=s['cseed'])
+            if s.get('n_runs_first'):
+                oc.set_n_runs(s['n_runs_first'])
             oc.set_n_runs(s['n_runs'])
             oc.set_parallel_evaluation(False)
             opt = s['optimiser']
